@@ -403,6 +403,141 @@ func checkC26(r *core.Run, p *core.Program) {
 	}
 	r.Floor("C26.shift-offset", "byte-wise element conversions in internal/arrays", nConv, 18)
 
+	// ---- C26.total: every byte-wise conversion treats every element, unconditionally ------------------
+	r.Rule("C26.total", "each byte-wise conversion of internal/arrays is a single loop over all elements whose body is straight-line (no branch, continue, break or return can skip or alter an element), it is recognised as a little-endian layout, and each exported wrapper contains nothing but the optional fast path, an optional early return for inputs shorter than one element, and the final byte-wise fallback.")
+	nTotal := 0
+	for _, f := range funcsOf(arr) {
+		if recvNamed(f.Obj) != nil || f.Obj.Exported() {
+			continue
+		}
+		sig := f.Obj.Type().(*types.Signature)
+		if sig.Params().Len() != 1 || sig.Results().Len() != 1 {
+			continue
+		}
+		pt, rt := sig.Params().At(0).Type(), sig.Results().At(0).Type()
+		var elem types.Type
+		if isByteSlice(pt) && !isByteSlice(rt) {
+			if sl, ok := rt.Underlying().(*types.Slice); ok {
+				elem = sl.Elem()
+			}
+		} else if isByteSlice(rt) && !isByteSlice(pt) {
+			if sl, ok := pt.Underlying().(*types.Slice); ok {
+				elem = sl.Elem()
+			}
+		}
+		if elem == nil {
+			continue
+		}
+		if b, ok := elem.Underlying().(*types.Basic); !ok || b.Info()&types.IsNumeric == 0 {
+			continue // UID helpers ([][]byte) are not typed-slice helpers
+		}
+		nTotal++
+		var loops []ast.Stmt
+		bad := ""
+		for _, st := range f.Decl.Body.List {
+			switch x := st.(type) {
+			case *ast.ForStmt, *ast.RangeStmt:
+				loops = append(loops, st)
+			case *ast.AssignStmt, *ast.ReturnStmt, *ast.DeclStmt:
+			default:
+				bad = fmt.Sprintf("statement %T outside the element loop (line %s)", x, p.Pos(st.Pos()))
+			}
+		}
+		if len(loops) != 1 && bad == "" {
+			bad = fmt.Sprintf("%d element loops found, exactly one expected", len(loops))
+		}
+		if bad == "" {
+			var body *ast.BlockStmt
+			switch l := loops[0].(type) {
+			case *ast.ForStmt:
+				body = l.Body
+			case *ast.RangeStmt:
+				body = l.Body
+			}
+			for _, st := range body.List {
+				switch st.(type) {
+				case *ast.AssignStmt, *ast.DeclStmt, *ast.IncDecStmt:
+				default:
+					bad = fmt.Sprintf("the element loop contains a %T at %s: an element can be skipped or handled differently depending on its value", st, p.Pos(st.Pos()))
+				}
+			}
+		}
+		r.Check("C26.total", f.Name()+"|one straight-line loop over all elements", f.Decl.Pos(), bad == "", bad)
+		if arr.TypesSizes.Sizeof(elem) > 1 {
+			r.Check("C26.total", f.Name()+"|recognised little-endian element layout", f.Decl.Pos(), len(arrFacts[f.Name()]) == 1,
+				fmt.Sprintf("%d byte assembly/spreading groups recognised in the function, exactly one expected: the conversion is not written as one little-endian element layout and cannot be judged", len(arrFacts[f.Name()])))
+		}
+	}
+	r.Floor("C26.total", "byte-wise conversions", nTotal, 20)
+	var leVar0 types.Object = arr.Types.Scope().Lookup("isLittleEndian")
+	nWrap := 0
+	for _, pk := range []*packages.Package{arr, p.Pkg("ce")} {
+		for _, f := range funcsOf(pk) {
+			if recvNamed(f.Obj) != nil || !f.Obj.Exported() {
+				continue
+			}
+			name := f.Obj.Name()
+			if !(strings.HasPrefix(name, "BytesTo") && strings.HasSuffix(name, "Slice")) && !strings.HasSuffix(name, "SliceAsBytes") {
+				continue
+			}
+			if strings.Contains(name, "UUID") {
+				continue
+			}
+			sig := f.Obj.Type().(*types.Signature)
+			if sig.Params().Len() != 1 {
+				continue
+			}
+			param := sig.Params().At(0)
+			width := int64(1)
+			for _, t := range []types.Type{param.Type(), sig.Results().At(0).Type()} {
+				if sl, ok := t.Underlying().(*types.Slice); ok && !isByteSlice(t) {
+					width = pk.TypesSizes.Sizeof(sl.Elem())
+				}
+			}
+			if strings.Contains(name, "Float16") {
+				width = 2
+			}
+			nWrap++
+			bad := ""
+			list := f.Decl.Body.List
+			for i, st := range list {
+				if i == len(list)-1 {
+					if _, ok := st.(*ast.ReturnStmt); !ok {
+						bad = "the wrapper does not end in a return"
+					}
+					continue
+				}
+				ifs, ok := st.(*ast.IfStmt)
+				if !ok {
+					bad = fmt.Sprintf("unexpected %T in a conversion wrapper", st)
+					continue
+				}
+				if leVar0 != nil && mentionsObj(pk.TypesInfo, ifs.Cond, leVar0) {
+					continue // fast path (judged by C26.unsafe-len / C26.empty)
+				}
+				// early return: only for inputs shorter than one element
+				okShort := false
+				if b, isB := stripParens(ifs.Cond).(*ast.BinaryExpr); isB && isLenOf(pk.TypesInfo, b.X, param) {
+					if c, okc := constInt(pk.TypesInfo, b.Y); okc {
+						switch b.Op {
+						case token.LSS:
+							okShort = c <= width
+						case token.LEQ:
+							okShort = c < width
+						case token.EQL:
+							okShort = c == 0
+						}
+					}
+				}
+				if !okShort {
+					bad = fmt.Sprintf("early exit under `%s`: with %d-byte elements only inputs shorter than %d bytes convert to nothing; this exit also catches inputs that hold whole elements", exprStr(ifs.Cond), width, width)
+				}
+			}
+			r.Check("C26.total", core.Rel(pk.Types)+"."+name+"|wrapper has only fast path, short-input exit and fallback", f.Decl.Pos(), bad == "", bad)
+		}
+	}
+	r.Floor("C26.total", "exported conversion wrappers", nWrap, 38)
+
 	// ---- C26.pairing ---------------------------------------------------------------------------
 	nPair := 0
 	cePkg := p.Pkg("ce")
